@@ -251,9 +251,31 @@ def prop_bfs(case, ctx):
     ctx.nontrivial(multi or (best is None and len(dist) >= 2))
 
 
+@st.composite
+def reuse_cases(draw, tier="quick"):
+    return {"a": draw(graph_specs(tier)), "b": draw(graph_specs(tier)), "algo": draw(st.sampled_from(["astar", "bfs"])),
+            "seed": draw(st.integers(0, 10 ** 6)), "tie": draw(st.sampled_from(["lifo", "fifo", "random"]))}
+
+
+def prop_reuse(case, ctx):
+    from msdm.algorithms.search import AStarSearch, BreadthFirstSearch
+    from vpm.checks.reuse import check_reuse
+    pa = build_problem(case["a"])[0]
+    pb = build_problem(case["b"])[0]
+    if case["algo"] == "astar":
+        make = lambda: AStarSearch(tie_breaking_strategy=case["tie"], randomize_action_order=True, seed=case["seed"])
+    else:
+        make = lambda: BreadthFirstSearch(randomize_action_order=True, seed=case["seed"])
+    check_reuse(ctx, "C05.reuse", make, lambda pl, m: pl.plan_on(m),
+                lambda r, m: None if r is None else {"path": list(r.path), "value": getattr(r, "path_value", None)}, pa, pb)
+    ctx.nontrivial(case["a"] != case["b"])
+
+
 PROPS = [
-    Prop("astar", lambda tier: astar_cases(tier), prop_astar, quick=4000, thorough=100000,
+    Prop("reuse", lambda tier: reuse_cases(tier), prop_reuse, quick=600, thorough=36000,
+         doc="a search object reused on a second problem gives the same result as a fresh one"),
+    Prop("astar", lambda tier: astar_cases(tier), prop_astar, quick=4000, thorough=300000,
          doc="A* path validity and optimal cost vs Dijkstra"),
-    Prop("bfs", lambda tier: bfs_cases(tier), prop_bfs, quick=3000, thorough=60000,
+    Prop("bfs", lambda tier: bfs_cases(tier), prop_bfs, quick=3000, thorough=180000,
          doc="BFS path validity and minimum steps"),
 ]
